@@ -15,9 +15,9 @@ LEVEL = "exploration"
 NEEDS = ["cli", "cli:ovf"]
 STATS = ["d-fu-li", "d-tajima", "f2", "f3", "f4", "fst", "king", "pi", "pi-xy", "r0", "r1", "s", "sum", "theta"]
 RULE = ("(1) EVERY statistic (14) x EVERY shape with 1-4 axes and lengths 1-4 (340 shapes) plus all 1-2 axis shapes up to length 10, all 9-entry shapes and ten shapes with 2^14 and more entries and a very short axis (3x6001, 3x81x81, ...), zero/positive data; (2) view/fold/create option values at and "
-        "beyond their bounds (axes, projection targets 0 / larger / wrong dimensionality / 2^63 / 2^64-1, precision 0/17/65535/65536/10^6, threads); "
+        "beyond their bounds (axes, projection targets 0 / larger / wrong dimensionality / 2^63 / 2^64-1, precision 0/17/65535/65536/10^6, threads; file names and sample lists that are not valid UTF-8, with and without --debug / -vv); "
         "(2b) error exits and log lines with stderr pointing at /dev/full; (2c) successful work whose stdout is a pipe without reader (EPIPE), /dev/full (ENOSPC) or a read-only descriptor (EBADF), outputs from bytes to beyond the pipe buffer; (2d) `create` at every verbosity on inputs of 2^16 .. 2^17+1 records; (3) empty and 1-10 byte inputs and texts cut off after / interrupted by multi-byte UTF-8 characters, to all four subcommands by path and stdin; (4) absurd declared shapes in text and npy headers (0, 2^32, 2^63, "
-        "wrapping products, up to 22000 axes); (5) contradictory sample lists: hand-written ones plus EVERY list of 1-4 entries over {2 samples} x {label A, label B, no label} (1554 lists, -s and -S) and seeded 5-9 entry lists over 3 samples x 4 labels; (6) hostile bytes: every single-byte substitution {^01, ^80, 00, ff, +1} "
+        "wrapping products, up to 22000 axes); (4b) unparsable npy v3 headers with a multi-byte character at every byte offset 20..230; (5) contradictory sample lists: hand-written ones plus EVERY list of 1-4 entries over {2 samples} x {label A, label B, no label} (1554 lists, -s and -S) and seeded 5-9 entry lists over 3 samples x 4 labels; (6) hostile bytes: every single-byte substitution {^01, ^80, 00, ff, +1} "
         "at every offset of small vcf / vcf.gz / bgzf bcf / raw bcf / npy / text seed files (deterministic), the same on the uncompressed payload "
         "re-BGZF'd, plus seeded multi-site mutations, splices, digit runs -> huge numbers, truncations. Each run on the release and the "
         "overflow-checked binary. Verdict per run: exit 0, or exit != 0 with a diagnostic; refuting: exit 101 / 'panicked at', death by signal, "
@@ -26,7 +26,7 @@ RULE = ("(1) EVERY statistic (14) x EVERY shape with 1-4 axes and lengths 1-4 (3
 ASSUMPTIONS = ["findings are keyed by (subcommand, normalised panic site); dependency sites are stable because Cargo.lock pins them",
                "--threads up to the tool's own limit (1024) is assumed to be spawnable on the machine running the check",
                "population counts between 20 and 25 are not generated: the 3^k-cell spectrum may or may not be allocatable on a given machine"]
-FLOORS = {"quick": {"evaluations": 30000, "distinct_nontrivial": 10000, "counts": {"stat_grid": 11000, "option_bounds": 300, "short_inputs": 300, "absurd_shapes": 150, "sample_lists": 60, "sample_lists_enumerated": 1900, "stdout_gone_runs": 500, "many_records_runs": 30, "hostile_bytes": 15000}},
+FLOORS = {"quick": {"evaluations": 30000, "distinct_nontrivial": 10000, "counts": {"stat_grid": 11000, "option_bounds": 300, "short_inputs": 300, "absurd_shapes": 150, "sample_lists": 60, "sample_lists_enumerated": 1900, "stdout_gone_runs": 500, "many_records_runs": 30, "npy_header_non_ascii": 1000, "hostile_bytes": 15000}},
           "thorough": {"evaluations": 300000, "distinct_nontrivial": 150000, "counts": {"stat_grid": 11000, "hostile_bytes": 300000}}}
 NSHARD = 32
 KINDS = ["release", "ovf"]
@@ -164,9 +164,23 @@ def part_options(S, p):
         cases.append(["stat", "-s", "sum,s", "-p", "3," + prec])
     cases += [["fold", "--fill", "nan"], ["fold", "--fill", "bogus"], ["stat", "-s", "sum", "-d", ""], ["stat", "-s", "sum", "-d", "ab"], ["stat", "-s", "sum,s", "-p", "1,2,3"],
               ["stat", "-s", "nope"], ["view", "-O", "npy", "--precision", "65535"], ["view", "-o", "/nonexistent-dir/x"], ["view", "-n", "--mask-monomorphic"]]
+    # arguments that are not valid UTF-8 (file names in a legacy encoding), with and without the flags that echo the command line
+    latin = b"caf\xe9-\xff.sfs"
+    lpath = os.path.join(os.path.dirname(E.tmpfile(b"", ".x")).encode(), latin)
+    with open(lpath, "wb") as f_:
+        f_.write(inp)
+    for pre in ([], ["--debug"], ["-vv"], ["-q"]):
+        cases.append(pre + ["view", lpath])
+        cases.append(pre + ["view", b"/nonexistent/" + latin])
+        cases.append(pre + ["view", "-o", lpath + b".out"])
+        cases.append(pre + ["fold", lpath])
+        cases.append(pre + ["stat", "-s", "sum", lpath])
+        cases.append(pre + ["create", "-S", lpath])
+        cases.append(pre + ["create", "-s", b"s\xe9=p\xff"])
     mine = [c for k, c in enumerate(cases) if k % 4 == p["i"] % 4]
     for c in mine:
-        run_case(S, c, inp, c[0], "option-bounds %s" % c[1] if len(c) > 1 else "option-bounds", "option_bounds")
+        sub_ = next((x for x in c if x in ("view", "fold", "stat", "create")), "view")
+        run_case(S, c, inp, sub_, "option-bounds %s" % (c[1] if len(c) > 1 and isinstance(c[1], str) else "bytes"), "option_bounds")
     # every short axis list (duplicates adjacent or not, out-of-range entries) on 4- and 5-axis spectra
     for shape4 in ([2, 2, 2, 2], [2, 1, 3, 2, 2]):
         inp4 = GS.text_spectrum(shape4, [float(x) for x in range(O.prod(shape4))], 0)
@@ -292,6 +306,22 @@ def part_short(S, p):
 
 
 # ---------------------------------------------------------------- (4) absurd shapes
+def part_headers_non_ascii(S, p):
+    """npy files (format version 3: UTF-8 header) whose header dict cannot be parsed but is valid UTF-8 - a structured dtype with non-ASCII
+    field names, say - with a 2-, 3- or 4-byte character at EVERY byte offset from 20 to 230: an error message that quotes, shortens or
+    underlines the header must cut it at a character boundary."""
+    from ..oracle import npyfmt
+    for off in range(20, 231):
+        if off % NSHARD != p["i"]:
+            continue
+        for ch in ("\u00e9", "\u20ac", "\U0001d11e"):
+            head = "{'descr': [('"
+            body = head + "a" * max(0, off - len(head)) + ch + "z" * 40 + "', '<f8')], 'fortran_order': False, 'shape': (2,), }"
+            data = npyfmt.build(body, struct.pack("<2d", 1.0, 2.0), (3, 0))
+            sub = [["view"], ["fold"], ["stat", "-s", "sum"]][(off + len(ch.encode())) % 3]
+            run_case(S, sub, data, sub[0], "npy-header non-ascii at byte %d" % off, "npy_header_non_ascii", via="stdin" if off % 2 else "path")
+
+
 def part_absurd(S, p):
     rng = rng_for(S.seed, "c17", p["name"], "absurd")
     nums = ["0", "1", "4294967296", "9223372036854775807", "9223372036854775808", "18446744073709551615", "18446744073709551616", "99999999999999999999999999", "-3", "2147483648"]
@@ -484,6 +514,7 @@ def shard(S, p):
         part_many_records(S, p)
     part_short(S, p)
     part_absurd(S, p)
+    part_headers_non_ascii(S, p)
     part_samples(S, p)
     part_hostile(S, p)
 
